@@ -257,7 +257,7 @@ def run(tier, seed):
                        "kernel assumptions: eps stabiliser read as 0, no zero row / column in the loadings (communalities and column maxima > 0), the matrices the kernel inverts are invertible, np.linalg.svd contract",
                        "precondition: retained singular values > 0 and rotated loadings have non-zero columns (the code divides by them)",
                        "argsort_dask / np.linalg.inv / sign-multiplier contracts assumed", "float arithmetic exact; machine-eps stabilisers in _varimax/_promax read as 0",
-                       "cross-set rotators: the real CPCCARotator is traced with the base model under its contract (scores_i = whitened input_i times Q_i, s > 0), fitted whiteners (T Hermitian invertible) or none, PCA off; with PCA on: bounded only"]
+                       "cross-set rotators: the real CPCCARotator is traced with the base model under its contract (scores_i = whitened input_i times Q_i, s > 0), fitted whiteners (T Hermitian invertible) or none, PCA pre-reduction off or fitted (V^H V = I)"]
     res.trusted = ["CPython on proxies", "vf/sym normaliser", "z3", "xarray semantics as modelled"]
     agg = Agg(res, "C11")
     deductive(res, agg)
